@@ -72,7 +72,12 @@ def gen(rng, tier, index):
     if rng.random() < 0.5:
         kinds = ["pen", "approach", "vel"] if fam == "contact" else ["vel", "pos", "pos_point"]
         corrupt = {"kind": str(rng.choice(kinds)), "pick": int(rng.integers(100)), "dir": rng.normal(size=3).tolist(), "size": float(10 ** rng.uniform(-4, -1))}
-    return {"scene": scene, "family": fam, "mode": mode, "solver": solver, "corrupt": corrupt, "via": str(rng.choice(["build", "set_new_initial_state"]))}
+    plan = {"scene": scene, "family": fam, "mode": mode, "solver": solver, "corrupt": corrupt, "via": str(rng.choice(["build", "set_new_initial_state"]))}
+    if fam == "contact" and rng.random() < 0.5:
+        # fault F2 at the initial-condition fixed point: forced (hook) or organic (tiny iteration budget), with the
+        # legal option continue_with_unconverged on or off
+        plan["ic_fault"] = {"how": str(rng.choice(["forced", "budget"])), "continue": bool(rng.random() < 0.6), "max_iter": int(rng.integers(1, 4))}
+    return plan
 
 
 # ------------------------------------------------------------------ monitor
@@ -342,6 +347,34 @@ def execute(plan, out, log):
                             )
                         )
                         return
+    icf = plan.get("ic_fault")
+    if icf and not out["violations"]:
+        forced = icf["how"] == "forced"
+        sim2 = Sim(log, faults=[("ic.fp", 0, 1)] if forced else [])
+        opts = SolverOptions(fixed_point_atol=1e-10, fixed_point_max_iter=(50 if forced else icf["max_iter"]), continue_with_unconverged=icf["continue"])
+        with sim2.installed():
+            try:
+                B4 = build(scene, options=opts)
+                raised = None
+            except (AssertionError, RuntimeError, ValueError) as e:
+                B4, raised = None, e
+        failed = [i for i in sim2.failed_instances() if i[0] == "ic.fp"]
+        if failed:
+            out["faults"]["F2_ic_fixed_point_failure" if forced else "F2o_ic_fixed_point_budget"] += 1
+            out["probes"]["ic_fixed_point_failed"] += 1
+            if raised is not None:
+                out["probes"]["ic_failure_raised"] += 1
+            elif any(w[0] > failed[0][6] for w in sim2.warnings):
+                out["probes"]["ic_failure_warned"] += 1
+            else:
+                # silent return: then the values handed out must be consistent after all
+                n0 = len(out["violations"])
+                monitor_ic(B4, out, f"assemble() returned silently although its contact fixed point did not converge ({icf['how']}, continue_with_unconverged={icf['continue']})")
+                for v in out["violations"][n0:]:
+                    v["cls"], v["sig"] = "ic_unconverged_silent", "consistent_initial_conditions/" + v["cls"]
+                if len(out["violations"]) > n0:
+                    return
+                out["probes"]["ic_failure_silent_but_consistent"] += 1
     s = Bref.system
     out["nontrivial"] = bool(s.nla_g + s.nla_gamma + s.nla_c + s.nla_tau) or out["probes"]["persistent_contact"] > 0
     states = tuple(k for k in ("persistent_contact", "sliding_contact", "sticking_contact", "open_or_impact_contact") if out["probes"][k])
@@ -351,6 +384,8 @@ def execute(plan, out, log):
 def shrink(plan):
     if plan["corrupt"]:
         yield dict(plan, corrupt=None)
+    if plan.get("ic_fault"):
+        yield {k: v for k, v in plan.items() if k != "ic_fault"}
     if plan["mode"] == "reached":
         yield dict(plan, mode="initial")
         so = plan["solver"]
